@@ -361,7 +361,7 @@ def _raw_equal(b0, b1, what, only=None):
 
 
 # ------------------------------------------------------------------------------------------------------- h_plain
-def _plain(rev, lv, pay, gfl, gpay, kind, li, n, gn, layout, comp, witness=False):
+def _plain(rev, lv, pay, gfl, gpay, kind, li, n, gn, layout, comp):
     from vf.stubs import bspio  # noqa: F401  (pure helpers; mk() gives real bytes natively)
     revc, lvc, payc, gflc, gpayc = _cut(rev, 4), _cut(lv, 4), _cut(pay, n), _cut(gfl, 4), _cut(gpay, gn)
     assume(gflc[0] % 2 == 0)                       # compression bit of the symbolic game lump clear (LZMA stays concrete)
@@ -409,8 +409,6 @@ def _plain(rev, lv, pay, gfl, gpay, kind, li, n, gn, layout, comp, witness=False
         _same_file(env, "out1.bsp", "out3.bsp", "save of the re-read file")
     finally:
         env.close()
-    if witness:
-        raise Fail("reached")
 
 
 def h_plain(rev: bytes, lv: bytes, pay: bytes, gfl: bytes, gpay: bytes, kind: str, li: int, n: int, gn: int,
@@ -561,19 +559,6 @@ def _views(o0, o1, o2, hid, cluster, kind, depth, deep, witness=False):
 
 def h_views(o0: int, o1: int, o2: int, hid: bytes, cluster: str, kind: str = "20", depth: int = 2,
             deep: bool = False) -> None:
-    import os
-    if os.environ.get("C10_DEBUG"):
-        try:
-            _views(o0, o1, o2, hid, cluster, kind, depth, deep)
-        except BaseException as e:
-            import sys, traceback
-            sys.stderr.write("DBG " + type(e).__name__ + " " + str(e)[:300] + "\n")
-            if type(e).__name__ != "IgnoreAttempt":
-                traceback.print_exc()
-            else:
-                sys.stderr.write("".join(traceback.format_tb(e.__traceback__)[-2:]))
-            raise
-        return
     _views(o0, o1, o2, hid, cluster, kind, depth, deep)
 
 
